@@ -193,6 +193,9 @@ func (s *session) closeCall(h int) (func(), string, bool) {
 func (s *session) doClose(fn func(), id string) string {
 	if !s.wait(fn, false) { // not a blocked publisher/subscriber by itself: the run goes on and probes those
 		drv("closeret", id, "flag", "blocked")
+		// the closer is stuck: are publishers stuck with it?  (a publish on a closing bus must return, with
+		// ErrNotRunning or nil)
+		s.publish(s.newEvent())
 		return "blocked"
 	}
 	drv("closeret", id, "flag", "ok")
